@@ -110,6 +110,7 @@ Proof.
     split; [|left; reflexivity]. unfold len in *. rewrite app_length. lia.
   - intros H. inversion H. subst. split; [lia|left; reflexivity].
   - cbv zeta.
+    destruct ((len out1 - len out >? 0) && (len out1 + (len out1 - len out) >? cap)); [discriminate|].
     set (out2 := if len out1 - len out >? 0 then firstn (Z.to_nat (len out)) out1 else out1).
     assert (H2 : len out <= len out2 <= cap).
     { subst out2. destruct (len out1 - len out >? 0) eqn:E3; [|lia].
